@@ -409,16 +409,20 @@ void BSLightingShaderProperty::Sync(NiStreamReversible& stream) {
 	}
 
 	if (stream.GetVersion().Stream() > 139) {
-		stream.Sync(bslspShaderType);
-
 		// Adjust shader type to old value internally due to removed Height/Parallax enum value (3)
 		if (stream.GetMode() == NiStreamReversible::Mode::Reading) {
+			stream.Sync(bslspShaderType);
+
 			if (bslspShaderType > 3)
 				bslspShaderType += 1;
 		}
 		else {
-			if (bslspShaderType >= 3)
-				bslspShaderType -= 1;
+			// Write the value that reading adjusts back to the internal one, leave the member untouched
+			uint32_t fileShaderType = bslspShaderType;
+			if (fileShaderType > 3)
+				fileShaderType -= 1;
+
+			stream.Sync(fileShaderType);
 		}
 	}
 
